@@ -10,7 +10,12 @@ the base, string or integer discriminators that include the falsy identities "" 
 and a random population written with plain Core inserts.  After the first round a
 further single-table subclass is mapped late (hierarchy already configured and used),
 its rows are inserted, and every class is queried again - first with the compiled cache
-untouched, then (``@late`` mechanisms) with freshly compiled statements.  Every class of the
+untouched, then (``@late`` mechanisms) with freshly compiled statements.  Round 3: a
+populate_existing round (objects held with every attribute read, rows changed behind the
+session, every class re-queried with populate_existing through the execution option,
+Query.populate_existing(), get(populate_existing=True) and a with_polymorphic subset) and
+a two-thread round (same cached polymorphic statement, cold cache, thread B interleaved
+at each of thread A's ``Result._getter`` calls).  Every class of the
 tree is queried with every applicable polymorphic loading option:
 
   default select | with_polymorphic(K, "*") | with_polymorphic(K, [subset]) |
@@ -59,7 +64,8 @@ META = {
     "soft_s": {"quick": 45, "thorough": 600},
     "exhaustive": {"quick": False, "thorough": False},
     "require": ["queries", "objects_checked", "attrs_checked", "subclass_objects_checked", "get_checks",
-                "queries_after_late_subclass", "falsy_identity_hierarchies",
+                "queries_after_late_subclass", "falsy_identity_hierarchies", "populate_existing_queries",
+                "concurrent_trials",
                 "hier_joined", "hier_single", "hier_mixed", "hier_concrete"],
     "assumptions": ["the population table written by plain INSERTs is the ground truth"],
 }
@@ -316,9 +322,195 @@ def one_hierarchy(ctx, sa, orm, R, kind, hseed, warnings, random):
                               dict(origin, late=[late.name, late.parent.name], stale=cache_only))
             # (b) statements compiled afresh
             query_round("late")
+        if kind != "concrete" and ctx.budget_ok():
+            populate_existing_round(ctx, sa, orm, R, h, pop, engine, hr, origin, warnings)
+        if kind != "concrete" and ctx.budget_ok() and hr.random() < ctx.pick({"quick": 0.25, "thorough": 0.5}):
+            concurrent_round(ctx, sa, orm, R, h, pop, hr, origin, warnings)
     finally:
         engine.dispose()
         h.dispose()
+
+
+def populate_existing_round(ctx, sa, orm, R, h, pop, engine, hr, origin, warnings):
+    """Objects are loaded through the base class and every attribute (sub-table ones too)
+    is read; the rows are then changed behind the session's back (plain UPDATEs on its own
+    connection); each class is queried again with populate_existing (execution option /
+    Query.populate_existing() / get(populate_existing=True) / with_polymorphic subset).
+    Every object the query returns must afterwards show the *new* values on attribute
+    access - base-table and sub-table attributes alike."""
+    kind = h.kind
+    with warnings.catch_warnings():
+        warnings.simplefilter("ignore")
+        with orm.Session(engine) as s:
+            held = s.scalars(sa.select(h.root.cls)).all()
+            for o in held:
+                for a in h.node(type(o).__name__).all_attrs():
+                    getattr(o, a)
+            # external modification: every attribute of every row changes
+            new_rows = {}
+            conn = s.connection()
+            for r in pop["rows"]:
+                n = h.node(r["cls"])
+                nr = dict(r)
+                for a in n.all_attrs():
+                    nr[a] = (r[a] if r[a] is not None else 0) + 100 if a.endswith("_v") else ((r[a] or "") + "!")
+                new_rows[r["id"]] = nr
+                done = set()
+                for anc in n.lineage():
+                    t = anc.table
+                    if t.name in done:
+                        continue
+                    done.add(t.name)
+                    vals = {a: nr[a] for m in n.lineage() if m.table is t for a in m.own_attrs}
+                    if vals:
+                        conn.execute(t.update().where(t.c.id == r["id"]).values(**vals))
+            newpop = dict(pop, rows=list(new_rows.values()))
+            for node in h.nodes:
+                subs = node.descendants()[1:]
+                for option in ("exec_option", "legacy_populate_existing", "get_populate_existing", "wp_subset_exec_option"):
+                    if not ctx.budget_ok():
+                        return
+                    label = option + "@populate_existing"
+                    witness = dict(origin, cls=node.name, option=label)
+                    exp = expected_rows(h, newpop, node)
+                    try:
+                        if option == "exec_option":
+                            objs = s.scalars(sa.select(node.cls).execution_options(populate_existing=True)).all()
+                        elif option == "legacy_populate_existing":
+                            objs = s.query(node.cls).populate_existing().all()
+                        elif option == "get_populate_existing":
+                            objs = [s.get(node.cls, r["id"], populate_existing=True) for r in exp]
+                        else:
+                            if not subs:
+                                continue
+                            wp = orm.with_polymorphic(node.cls, [hr.choice(subs).cls])
+                            objs = s.scalars(sa.select(wp).execution_options(populate_existing=True)).all()
+                    except Exception as e:
+                        ctx.violation(f"query-raises-{type(e).__name__}:{kind}/{label}",
+                                      f"{label} at {node.name} raised {type(e).__name__}: {str(e)[:200]}", witness)
+                        continue
+                    ctx.count("queries")
+                    ctx.count("populate_existing_queries")
+                    ctx.case({"shape": origin["shape"], "kind": kind, "cls": node.name, "opt": label}, nontrivial=bool(exp))
+                    check_objects(ctx, h, newpop, node, label, [o for o in objs if o is not None], witness, exp)
+            s.rollback()
+
+
+def concurrent_round(ctx, sa, orm, R, h, pop, hr, origin, warnings):
+    """Two threads execute the same (cache-keyed) polymorphic statement against one Engine
+    with a cold compiled cache.  Thread A is paused at its k-th ``Result._getter`` call -
+    these happen while row processors are being built, also lazily in the middle of the
+    rows when the first row of a subclass arrives - thread B then runs the whole statement,
+    A resumes; k is enumerated over every such call.  Both executions must return every row
+    as its class with every attribute right (objects are detached first, so nothing can be
+    repaired by a later load)."""
+    import threading
+
+    from sqlalchemy.engine import result as _result
+
+    path = ctx.tmppath(".db")
+    engine = sa.create_engine(f"sqlite:///{path}", connect_args={"check_same_thread": False})
+    R.write_hier_population(h, {"owners": pop["owners"], "rows": pop["rows"]}, engine)
+    wp = orm.with_polymorphic(h.root.cls, "*")
+    stmt = sa.select(wp).order_by(wp.id)
+    exp = {r["id"]: r for r in pop["rows"]}
+    orig = _result.Result._getter
+    state = {"thread": None, "n": 0, "k": None}
+    paused, b_done = threading.Event(), threading.Event()
+
+    def hooked(self, key, raiseerr=True):
+        if threading.get_ident() == state["thread"]:
+            state["n"] += 1
+            if state["n"] == state["k"]:
+                paused.set()
+                b_done.wait(20)
+        return orig(self, key, raiseerr)
+
+    def load():
+        with orm.Session(engine) as s:
+            objs = s.scalars(stmt).all()
+            s.expunge_all()
+        out = []
+        for o in objs:
+            vals = {}
+            for a in ["id"] + h.node(type(o).__name__).all_attrs():
+                try:
+                    vals[a] = getattr(o, a)
+                except Exception as e:      # detached + unloaded: DetachedInstanceError
+                    vals[a] = "raises:" + type(e).__name__
+            out.append((type(o).__name__, o.__dict__.get("id"), vals))
+        return out
+
+    def judge(who, k, rows):
+        got_ids = sorted(x[1] for x in rows if x[1] is not None)
+        bad = []
+        if got_ids != sorted(exp) or len(rows) != len(exp):
+            bad.append(f"ids {[x[1] for x in rows]} != {sorted(exp)}")
+        for cname, pk, vals in rows:
+            r = exp.get(pk)
+            if r is None:
+                continue
+            if cname != r["cls"]:
+                bad.append(f"id={pk} loaded as {cname}, is {r['cls']}")
+            for a, v in vals.items():
+                if a != "id" and v != r[a]:
+                    bad.append(f"{r['cls']}#{pk}.{a} = {v!r}, population says {r[a]!r}")
+        if bad:
+            ctx.violation(f"concurrent-cached-statement:{h.kind}/{who}",
+                          f"execution {who} (other thread interleaved at A's _getter call #{k}): {bad[:3]}",
+                          dict(origin, k=k, who=who, bad=bad[:10]))
+
+    _result.Result._getter = hooked
+    try:
+        with warnings.catch_warnings():
+            warnings.simplefilter("ignore")
+            # dry run: number of interleaving points of one cold execution
+            state.update(thread=threading.get_ident(), n=0, k=None)
+            engine.clear_compiled_cache()
+            load()
+            total = state["n"]
+            ctx.count("concurrent_interleaving_points", total)
+            ks = list(range(1, total + 1))
+            if ctx.quick and len(ks) > 24:
+                ks = sorted(hr.sample(ks, 24))
+            for k in ks:
+                if not ctx.budget_ok():
+                    break
+                engine.clear_compiled_cache()
+                paused.clear()
+                b_done.clear()
+                res = {}
+
+                def run_a():
+                    state.update(thread=threading.get_ident(), n=0, k=k)
+                    try:
+                        res["A"] = load()
+                    except Exception as e:
+                        res["A_err"] = e
+                    paused.set()
+
+                ta = threading.Thread(target=run_a)
+                ta.start()
+                if not paused.wait(20):
+                    ctx.count("concurrent_watchdog")
+                try:
+                    res["B"] = load()      # thread B = this thread, while A is parked
+                except Exception as e:
+                    res["B_err"] = e
+                b_done.set()
+                ta.join(30)
+                ctx.count("concurrent_trials")
+                ctx.case({"shape": origin["shape"], "kind": h.kind, "opt": "concurrent", "k": k}, nontrivial=True)
+                for who in ("A", "B"):
+                    if who + "_err" in res:
+                        e = res[who + "_err"]
+                        ctx.violation(f"concurrent-cached-statement-raises-{type(e).__name__}:{h.kind}/{who}",
+                                      f"{type(e).__name__}: {str(e)[:200]}", dict(origin, k=k, who=who))
+                    elif who in res:
+                        judge(who, k, res[who])
+    finally:
+        _result.Result._getter = orig
+        engine.dispose()
 
 
 def check_get(ctx, sa, orm, h, pop, node, s, witness, label="get"):
